@@ -359,11 +359,11 @@ class EventMixin (object):
                                               if x[3] != handler]
           altered = altered or l != len(self._eventMixin_handlers[event])
       else:
-        l = len(handlers)
         handlers = self._eventMixin_handlers[eventType]
+        l = len(handlers)
         self._eventMixin_handlers[eventType] = [x for x in handlers
                                                 if x[3] != handler]
-        altered = altered or l != len(self._eventMixin_handlers[event])
+        altered = altered or l != len(self._eventMixin_handlers[eventType])
     else:
       if eventType == None:
         for event in self._eventMixin_handlers:
